@@ -727,7 +727,16 @@ func pkcs7Grid(c *vf.Ctx) {
 	N := c.Pick(64, 520)
 	vf.Par(255, func(bi int) {
 		b := bi + 1
+		lens := make([]int, 0, N+8)
 		for n := 0; n <= N; n++ {
+			lens = append(lens, n)
+		}
+		for _, n := range []int{254, 255, 256, 257, 258, 511, 512, 513, 767, 768, 1024, 4096} {
+			if n > N {
+				lens = append(lens, n) // both sides of every multiple of 256 also in the quick tier
+			}
+		}
+		for _, n := range lens {
 			p := b - n%b
 			for _, content := range []string{"counter", "pad-byte"} {
 				var m []byte
@@ -888,6 +897,36 @@ func gppAll(c *vf.Ctx) {
 			})
 		}
 	})
+	// mutual inverses on whatever Decrypt ACCEPTS: a ciphertext that is not a whole number of AES blocks (1..15
+	// bytes too many, or cut by 1..15) has no AES-256-CBC decryption; it is refused, or — if accepted —
+	// encrypting the returned password must give that very ciphertext back
+	for _, p := range []string{"", "a", "Passw0rd!", "pässwörd", strings.Repeat("x", 8), strings.Repeat("\U0001F600", 9)} {
+		raw := ref.GPPEncryptRaw(p)
+		var cands [][]byte
+		for k := 1; k <= 15; k++ {
+			cands = append(cands, append(append([]byte{}, raw...), enum.Counter(k, 0x30)...))
+			if len(raw) > k {
+				cands = append(cands, append([]byte{}, raw[:len(raw)-k]...))
+			}
+		}
+		cands = append(cands, []byte{})
+		for _, ct := range cands {
+			c.Case([]byte("gpp-ct"), ct)
+			var got string
+			var err error
+			pan, msg, where := vf.Try(func() { got, err = gppp.GPPPDecryptBytes(append([]byte{}, ct...)) })
+			if !c.Check("C12/gppp/GPPPDecryptBytes/no-panic", !pan, func() string { return fmt.Sprintf("GPPPDecryptBytes(%x) panicked: %s at %s", ct, msg, where) }) {
+				continue
+			}
+			var back []byte
+			if err == nil {
+				back = ref.GPPEncryptRaw(got)
+			}
+			c.Check("C12/gppp/GPPPDecryptBytes/ciphertext-not-whole-blocks/refused-or-is-the-encryption-of-the-returned-password", err != nil || bytes.Equal(back, ct), func() string {
+				return fmt.Sprintf("GPPPDecryptBytes(%x) (%d bytes, derived from the encryption of %q) returned %q without error, but AES-256-CBC/PKCS#7 of that password is %x", ct, len(ct), p, got, back)
+			})
+		}
+	}
 	c.Sample("gpp-password", fmt.Sprintf("%q", pws[len(pws)/3]))
 	c.Sample("gpp-password", fmt.Sprintf("%q", pws[1500]))
 }
